@@ -966,6 +966,23 @@ def big_lines(rng, n, maxlen=8, karatsuba=0):
     for k in [0, 1, 63, 64, 65, 127, 128, 129, 300]:
         lines.append("big allones %d" % k)
         lines.append("big onehot %d" % k)
+    # divisors of every exact bit length next to the half-word / word boundaries (31..34, 63..66, 127..130) under long dividends
+    for _ in range(max(60, n // 40)):
+        b = rng.choice([31, 32, 33, 33, 33, 34, 63, 64, 65, 66, 127, 128, 129, 130, rng.randrange(2, 200)])
+        dv = rng.getrandbits(b) | (1 << (b - 1)) | rng.choice([0, 1])
+        if rng.randrange(4) == 0:
+            dv = rng.choice([5 ** 14, 2 ** 32 + 1, 7777777777, 10 ** 10, 2 ** 33 - 1, 2 ** 32 + 2 ** 31, (1 << (b - 1)) + 1])
+        la = rng.randrange(3, 9)
+        av = rng.getrandbits(64 * la) | (1 << (64 * la - 1 - rng.randrange(0, 64)))
+        lines.append("big div %x %x" % (av, dv))
+    # decimal strings with long runs of zero digits in the middle (beyond the 5-word splitting threshold): c*10^k + small
+    for _ in range(max(30, n // 200)):
+        k = rng.choice([97, 100, 112, 120, 128, 150, 200, 320, rng.randrange(97, 400)])
+        c = rng.choice([1, 7, 123456789, rng.randrange(1, 10 ** 18)])
+        v = c * 10 ** k + rng.choice([0, 0, 7, 42, rng.randrange(0, 10 ** 9), 10 ** (k - 17) + 3 if k > 20 else 0])
+        lines.append("big dec %x" % v)
+        if rng.randrange(3) == 0:
+            lines.append("big dec %x" % (10 ** k - 1))
     # glue: u128 / u64 constructors and accessors, zero in every printing routine, u64 right-hand operators
     for v in [0, 1, 2 ** 63, 2 ** 64 - 1, 2 ** 64, 2 ** 64 + 1, 2 ** 127, 2 ** 128 - 1] + [rng.getrandbits(rng.choice([10, 64, 65, 128])) for _ in range(40)]:
         lines.append("big u128 %x" % v)
